@@ -302,6 +302,86 @@ def nested(shard=None, nshards=1, max_many=2):
     return harness
 
 
+def class_change(names, via, c1a):
+    """Two sibling class-typed arguments; a first source gives both a class spec, a second source changes the class of one
+    of them. Relational: the outcome for the pair of names under test equals the outcome for neutral names."""
+    from jsonargparse import ArgumentError, ArgumentParser
+
+    from .. import fixtures
+
+    install_format_stubs()
+    CL = [("vf.fixtures.Base", {"w"}), ("vf.fixtures.Sub1", {"w", "z", "k"}), ("vf.fixtures.Sub2", {"w", "items", "flag"}), ("vf.fixtures.NoW", {"v"})]
+    EXTRA = {"vf.fixtures.Sub1": ("z", 2.5), "vf.fixtures.Sub2": ("flag", True), "vf.fixtures.NoW": ("v", 3), "vf.fixtures.Base": ("w", 4)}
+
+    def build(n1, n2):
+        p = ArgumentParser(exit_on_error=False)
+        p.add_argument("--" + n1, type=fixtures.Base, default=None)
+        p.add_argument("--" + n2, type=fixtures.Base, default=None)
+        return p
+
+    def run(n1, n2, c1a, c2a, c1b, c2b, second_mentions_first, via):
+        p = build(n1, n2)
+        def spec(ci, with_extra=True):
+            path, _ = CL[ci]
+            d = {"class_path": path}
+            if with_extra:
+                k, v = EXTRA[path]
+                d["init_args"] = {k: v}
+            return d
+        first = {n1: spec(c1a), n2: spec(c2a)}
+        second = {n2: spec(c2b, with_extra=False)}
+        if second_mentions_first:
+            second[n1] = spec(c1b, with_extra=False)
+        try:
+            if via == "cfg_base":
+                cfg = p.parse_object(second, cfg_base=p.parse_object(first))
+            else:
+                from jsonargparse import ActionConfigFile
+
+                p.add_argument("--cfg", action=ActionConfigFile)
+                cfg = p.parse_args(["--cfg", json.dumps(first), "--cfg", json.dumps(second)])
+        except ArgumentError as ex:
+            return ("rejected", str(ex)[:100])
+        out = {}
+        for role, n in (("first", n1), ("second", n2)):
+            v = cfg[n]
+            out[role] = (v.class_path, sorted((v.get("init_args") or {}).keys()))
+        return ("ok", out)
+
+    run(names[0], names[1], 1, 1, 1, 2, True, "cfg_base")
+
+    def harness():
+        c2a = S.choice("second.class.a", 4)
+        c2b = S.choice("second.class.b", 4)
+        mentions = S.flag("second_source_mentions_first")
+        c1b = c1a if not S.flag("first_changes_too") else S.choice("first.class.b", 4)
+        if S.replaying is not None:
+            got = run(names[0], names[1], c1a, c2a, c1b, c2b, mentions, via)
+            ref = run("alpha", "omega", c1a, c2a, c1b, c2b, mentions, via)
+        else:
+            from crosshair.tracers import NoTracing
+
+            with NoTracing():
+                got = run(names[0], names[1], c1a, c2a, c1b, c2b, mentions, via)
+                ref = run("alpha", "omega", c1a, c2a, c1b, c2b, mentions, via)
+        S.note("accepted" if ref[0] == "ok" else "rejected")
+        if got[0] != ref[0]:
+            return Fail("class:change-of-class-depends-on-sibling-names", names=names, got=got[0], neutral=ref[0], detail=got[1] if got[0] == "rejected" else "")
+        if got[0] == "ok":
+            if got[1] != ref[1]:
+                return Fail("class:change-of-class-result-depends-on-sibling-names", names=names)
+            if got[1]["second"][0] != CL[c2b][0]:
+                return Fail("class:changed-class-not-taken", want=CL[c2b][0], got=got[1]["second"][0])
+            if not set(got[1]["second"][1]) <= CL[c2b][1]:
+                return Fail("class:init_args-of-the-old-class-survive", klass=CL[c2b][0], args=got[1]["second"][1])
+        elif c2b != c2a or True:
+            # a change of class between sources is valid: it must not be rejected
+            return Fail("class:valid-change-of-class-rejected", names=names, detail=got[1])
+        return True
+
+    return harness
+
+
 def main(rep, tier):
     rep.functions = FUNCTIONS
     rep.stubs = [FORMAT_STUBS_NOTE]
@@ -312,7 +392,8 @@ def main(rep, tier):
         "class_path strings are concrete (import machinery); validity of an init_arg is structural (int excludes bool, float accepts int, Optional accepts None)",
         "an unknown init_arg name is invalid unless the class takes **kwargs; a callable returning the base class is accepted",
         "naming an abstract class may be rejected at parse or at instantiation",
-        "Protocols, class changes between text sources, Dict/Union-of-class parameters are outside (List of classes is inside)",
+        "a change of class between two sources (cfg_base / two --cfg texts) is valid; the outcome must not depend on how sibling arguments are named (relational, neutral names as reference)",
+        "Protocols, Dict/Union-of-class parameters are outside (List of classes is inside)",
     ]
     jobs = []
     for f, n in (("explicit", 12), ("path-string", 1), ("name-string", 1), ("explicit-two-steps", 12), ("init-args-on-default", 3)):
@@ -322,6 +403,10 @@ def main(rep, tier):
                 kw.update(shard=sh, nshards=n)
             jobs.append(dict(module="c14", func="specs", kwargs=kw, timeout=600))
     jobs.append(dict(module="c14", func="short_forms", kwargs={}, timeout=600))
+    for names in ((["net", "net_ema"], ["net_ema", "net"]) if tier == "quick" else (["net", "net_ema"], ["net_ema", "net"], ["m", "m2"])):
+        for via in ("cfg_base", "two-cfg"):
+            for c1a in range(4):
+                jobs.append(dict(module="c14", func="class_change", kwargs=dict(names=names, via=via, c1a=c1a), timeout=600))
     for sh in range(8):
         jobs.append(dict(module="c14", func="nested", kwargs=dict(shard=sh, nshards=8, max_many=1 if tier == "quick" else 2), timeout=600))
     results = run_jobs(jobs)
